@@ -23,7 +23,7 @@ func c12provider(nOld int) (*Provider, time.Time) {
 	p := &Provider{keys: make(map[int]Key)}
 	cur := v.Int("currentID")
 	v.Assume(1 <= cur && cur < math.MaxInt-4) // (exhausting the id space panics by design: VerifC12Overflow)
-	age := v.Int64("age") // how long ago the current key was generated
+	age := v.Int64("age")                     // how long ago the current key was generated
 	v.Assume(0 <= age && age <= 50*c12year)
 	p.currentID = cur
 	p.generatedAt = now.Add(-time.Duration(age))
